@@ -2,6 +2,7 @@ import AwProofs.Lemmas.StoreOpsSqlite
 import AwProofs.Lemmas.StoreOpsMemory
 import AwProofs.Lemmas.StoreOpsPeewee
 import AwProofs.Lemmas.StoreOpsSpec
+import AwProofs.Lemmas.Datastore
 /-!
 # C05 — Bucket lifecycle: create, list, describe, update, delete behave as a keyed map
 
@@ -417,6 +418,45 @@ theorem missing_raises_and_unchanged_peewee {s : Peewee.St D} (hI : Peewee.Inv s
     exact ⟨h, by simp only [Peewee.step, h]⟩
   · exact Peewee.deleteBucket_missing hI hb
   · simp only [Peewee.step, Peewee.deleteBucket_missing hI hb]
+
+
+/-! ## the `Datastore` layer: cached bucket handles never go stale -/
+
+/-- `bucket_instances` only ever holds ids of listed buckets: it starts empty, a lookup adds a listed id,
+    `create_bucket` and every storage operation that keeps the listing keep it, `delete_bucket` drops the handle
+    before calling the storage; so a lookup of a bucket that does not exist always raises KeyError.
+    Generic in the backend (`listed` = the ids `buckets()` returns); the two backend facts used are
+    instantiated for sqlite below from `frame_sqlite` / `listing_is_view_sqlite`. -/
+theorem handle_cache_coherent {σ : Type} (listed : σ → List String) :
+    (∀ s, Datastore.Coherent listed ({ st := s } : Datastore.DS σ)) ∧
+    (∀ d d' b, Datastore.Coherent listed d → Datastore.getitem listed d b = .ok d' →
+      Datastore.Coherent listed d' ∧ b ∈ listed d.st) ∧
+    (∀ d b, Datastore.Coherent listed d → b ∉ listed d.st → Datastore.getitem listed d b = .error .keyError) ∧
+    (∀ (create : σ → String → Meta → Except Err σ),
+      (∀ s s' b m, create s b m = .ok s' → ∀ x, x ∈ listed s → x ∈ listed s') →
+      ∀ d d' b m, Datastore.Coherent listed d → Datastore.createBucket listed create d b m = .ok d' →
+        Datastore.Coherent listed d') ∧
+    (∀ (delete : σ → String → Except Err σ),
+      (∀ s s' b, delete s b = .ok s' → ∀ x, x ≠ b → x ∈ listed s → x ∈ listed s') →
+      ∀ d b, Datastore.Coherent listed d →
+        Datastore.Coherent listed (Datastore.deleteBucket delete d b).1 ∧
+        b ∉ (Datastore.deleteBucket delete d b).1.cache) :=
+  ⟨fun s => Datastore.coherent_init listed s,
+   fun _ _ _ h hg => ⟨(Datastore.getitem_coherent h hg).1, Datastore.getitem_listed h hg⟩,
+   fun _ _ h hb => Datastore.getitem_missing h hb,
+   fun _ hc _ _ _ _ h hcr => Datastore.createBucket_coherent hc h hcr,
+   fun _ hd _ _ h => Datastore.deleteBucket_coherent hd h⟩
+
+/-- sqlite satisfies the two backend facts: an operation on bucket `b` keeps every other bucket listed
+    (from the frame theorem and the listing/view equivalence) -/
+theorem listing_preserved_sqlite {s : Sqlite.St D} (hI : Sqlite.Inv s) (op : Op D) (x : String)
+    (hx : x ≠ op.bucket) (hl : x ∈ (Sqlite.bucketsOf s).map (·.1)) :
+    x ∈ (Sqlite.bucketsOf (Sqlite.step s op)).map (·.1) := by
+  obtain ⟨⟨b, m⟩, hm, rfl⟩ := List.mem_map.1 hl
+  obtain ⟨es, hv⟩ := (Sqlite.bucketsOf_eq hI b m).1 hm
+  have hf : Sqlite.view (Sqlite.step s op) b = Sqlite.view s b := Sqlite.only_step hI op b hx
+  have hI' : Sqlite.Inv (Sqlite.step s op) := Sqlite.inv_step hI op
+  exact List.mem_map.2 ⟨(b, m), (Sqlite.bucketsOf_eq hI' b m).2 ⟨es, by rw [hf, hv]⟩, rfl⟩
 
 /-! ## non-vacuity: the hypotheses hold on concrete two-bucket states -/
 
